@@ -56,6 +56,11 @@ type c14Payload struct {
 	orig   []byte // concatenation of the frames' data in index order (the writer's payload)
 }
 
+// c14Concrete: frame contents and index values are concrete (pairwise distinct) instead of
+// symbolic. Used for the larger frame counts, where only the tree shape and the assignment of
+// indices to tree positions are enumerated.
+var c14Concrete bool
+
 var errC14NotStored = errors.New("c14: frame not stored")
 
 type c14Store struct {
@@ -135,8 +140,13 @@ func c14NewPayload(n int, cidBase int, lens func(k int) int, perm func(n int) []
 	p.parent = c14Tree(n)
 	p.rank = perm(n)
 	// index values: any strictly increasing chain v[0] < v[1] < ... ; idx[k] = v[rank[k]]
+	// (concrete mode: -7, 3, 13, ... so that negative values and gaps still occur)
 	v := make([]int, n)
 	for r := 0; r < n; r++ {
+		if c14Concrete {
+			v[r] = 10*r - 7
+			continue
+		}
 		v[r] = verifInt("indexValue")
 		if r > 0 {
 			verifAssume(v[r-1] < v[r])
@@ -148,7 +158,15 @@ func c14NewPayload(n int, cidBase int, lens func(k int) int, perm func(n int) []
 	p.frames = make([]*ipldbindcode.DataFrame, n)
 	for k := 0; k < n; k++ {
 		p.idx[k] = v[p.rank[k]]
-		p.data[k] = verifBytes("data", lens(k))
+		if c14Concrete {
+			// pairwise distinct concrete bytes: any misplaced, lost or repeated frame changes the result
+			p.data[k] = make([]byte, lens(k))
+			for j := range p.data[k] {
+				p.data[k][j] = byte(0x11*(cidBase+k+1) + 0x80*j)
+			}
+		} else {
+			p.data[k] = verifBytes("data", lens(k))
+		}
 		p.cids[k] = c14Cid(cidBase + k)
 	}
 	byRank := make([]int, n)
@@ -164,7 +182,7 @@ func c14NewPayload(n int, cidBase int, lens func(k int) int, perm func(n int) []
 		p.frames[k] = f
 	}
 	// next links, children in pre-order; leaves alternate between an absent and an empty list
-	emptyPar := verifChoice("emptyNextParity", 2)
+	emptyPar := verifChoice("emptyNextParity", verifParam("emptyPars", 2))
 	for k := 0; k < n; k++ {
 		var next ipldbindcode.List__Link
 		for c := k + 1; c < n; c++ {
